@@ -14,7 +14,10 @@
   R-C17-5  adaptors (AST normal forms): shifted = actual->get((where + size + shift) % size), sub-box =
            actual->get(where + clipBox.lower), accessor = cast of actual->get(where), multi-slice =
            slice[clamp(z, 0, n-1)]->get(x, y, 0), set writes value[longIndex(where, size())]; size / numElements
-           delegate; ActualArray3D::get clamps every coordinate to [0, dims-1] (IR, order theory).
+           delegate; ActualArray3D::get clamps every coordinate to [0, dims-1] (IR, order theory); the shift stored by an
+           IndexShiftedArray3D constructor stays within one period [-size, size], the range for which get()'s wrap is a modulo.
+  R-C17-6  getValueRange accumulates with the join of the range lattice: extend(), two independent tests, or if / else-if on a
+           range that already holds a value (never if / else-if on the empty range).
 """
 import re
 
@@ -332,6 +335,23 @@ def decide_equal(ctx, R, inst, file, key, got, want, okmsg, what):
         if I.equal(got, want):
             ctx.ok(R, inst, okmsg, file)
             return True
+        fa = float_atoms(got)
+        if fa and any(a.func.__name__.startswith(('fptoui', 'fptosi')) for a in fa) and not float_atoms(want) \
+                and I.atoms(sp.sympify(want), prefix='udiv'):
+            # an integer quotient computed through floating point: trunc(double(i) * (1/n)) or trunc(double(i) / n)
+            arms = set()
+            for z in sp.preorder_traversal(got):
+                if I.is_app(z, 'Sel'):
+                    arms |= {a for a in z.args[1:] if a.is_Integer}
+            if not any(a > 0 for a in arms):
+                ctx.violation(R, inst, '%s is computed in floating point as %s: that is not the integer quotient for all operands - the rounded '
+                              'reciprocal / product can come out just below an exact multiple of the divisor (then the truncation is one too '
+                              'small and the remainder equals the divisor: a coordinate outside the extent), and indices >= 2^53 are not '
+                              'representable; %s, none for a quotient that is too small; expected %s'
+                              % (what, fa[0], 'the only correction is a decrement for a quotient that is too large' if arms else
+                                 'there is no correction step', sp.expand(want)), file, key=key.rsplit('|', 1)[0] + '|float-quotient',
+                              path=['normal form found   : %s' % got, 'normal form expected: %s' % sp.expand(want)])
+                return False
         op = I.opaque_atoms(got)
         if op:
             ctx.undecided(R, inst, '%s = %s contains a narrowing that is not provably value-preserving (%s)' % (what, got, op[0]), file)
@@ -896,6 +916,11 @@ def check_for_each(ctx, tu):
     ctx.floor(R, n, 4, 'for_each instantiations in %s (2 loop nests + 2 wrappers; 6 on the pinned tree)' % AST_DRIVER)
 
 
+def float_atoms(t):
+    """atoms that convert between integers and floating point"""
+    return [a for a in I.all_atoms(t) if re.match(r'^(fptoui|fptosi|uitofp|sitofp)', a.func.__name__)]
+
+
 def check_iterators(ctx, ir):
     R = 'R-C17-4'
     n = 0
@@ -913,7 +938,7 @@ def check_iterators(ctx, ir):
             written = [str(v) for v in outs if str(v) in s.slots()]
             stale, undec = [], []
             moved = None
-            total = sp.Mul(*[sym('it[%d]' % o) for o in (dimoffs2 if nd == 2 else dimoffs3)])
+            total = sp.Mul(*[sym('it[%d]' % o) for o in layout[nd][0]])
             for p in s.paths:
                 ps = s.path_slots(p)
                 newcur = I.scalar_term(ps['it[%d]' % cur]) if ('it[%d]' % cur) in ps else c
@@ -946,9 +971,36 @@ def check_iterators(ctx, ir):
         except (Undecided, KeyError) as e:
             ctx.undecided(R, inst, 'coordinate cache: %s' % e, SEQ)
 
-    for nd, dimoffs, cur in ((2, (0, 8), 16), (3, (0, 8, 16), 24)):
+    layout = {}
+    for nd, dimoffs in ((2, (0, 8)), (3, (0, 8, 16))):
         dims = S('dims', dimoffs)
         total = sp.Mul(*dims)
+        # layout of the iterator object (not assumed): position member from current(), extent members from end()
+        inst = 'multidim_index_iterator<%d> layout' % nd
+        sc = ir.summary(R, inst, 'K_current%d' % nd, SEQ)
+        se = ir.summary(R, inst, 'K_end%d' % nd, SEQ)
+        if sc is None or se is None:
+            continue
+        try:
+            cs_ = sc.value('ret')
+            mm = re.match(r'^it\[(\d+)\]$', str(cs_)) if cs_.is_Symbol else None
+            if not mm:
+                ctx.undecided(R, inst, 'current() returns %s, not a stored member' % cs_, SEQ)
+                continue
+            cur = int(mm.group(1))
+            itoffs = []
+            for k in range(nd):
+                hits = sorted(int(re.match(r'^out\[(\d+)\]$', sl_).group(1)) for sl_ in se.slots()
+                              if re.match(r'^out\[(\d+)\]$', sl_) and int(re.match(r'^out\[(\d+)\]$', sl_).group(1)) != cur
+                              and len(se.values(sl_)) == len(se.paths) and all(t == dims[k] for _, t in se.values(sl_)))
+                if not hits:
+                    raise Undecided('end() does not store extent %d of the sequence in the iterator' % k)
+                itoffs.append(hits[0])
+            itoffs = tuple(itoffs)
+        except (Undecided, KeyError) as e:
+            ctx.undecided(R, inst, str(e), SEQ)
+            continue
+        layout[nd] = (itoffs, cur)
         for which, want, txt in (('begin', sp.Integer(0), '0'), ('end', total, 'total_indices()')):
             inst = 'index_sequence_%dD::%s' % (nd, which)
             s = ir.summary(R, inst, 'K_%s%d' % (which, nd), SEQ)
@@ -957,7 +1009,7 @@ def check_iterators(ctx, ir):
             n += 1
             try:
                 ok = True
-                for k, o in enumerate(dimoffs):
+                for k, o in enumerate(itoffs):
                     if not I.equal(s.value('out[%d]' % o), dims[k]):
                         ctx.violation(R, inst, 'iterator extent %d is %s, not the extent of the sequence' % (k, s.value('out[%d]' % o)),
                                       SEQ, key=key('multidim_index_sequence::' + which, 'dims'))
@@ -975,14 +1027,14 @@ def check_iterators(ctx, ir):
             n += 1
             try:
                 m = {sym('i'): sym('it[%d]' % cur)}
-                for o in dimoffs:
-                    m[sym('dims[%d]' % o)] = sym('it[%d]' % o)
+                for k_, o in enumerate(dimoffs):
+                    m[sym('dims[%d]' % o)] = sym('it[%d]' % itoffs[k_])
                 bad = None
                 for o in dimoffs:
                     slot = 'out[%d]' % o
                     if not I.equal(s.value(slot), r.value(slot).xreplace(m)):
                         bad = (slot, s.value(slot), r.value(slot).xreplace(m))
-                own = {sym('it[%d]' % o) for o in tuple(dimoffs) + (cur,)}
+                own = {sym('it[%d]' % o) for o in tuple(itoffs) + (cur,)}
                 outs = [s.value('out[%d]' % o) for o in dimoffs]
                 if bad and all(v.is_Symbol and str(v).startswith('it[') and v not in own for v in outs) and len(set(outs)) == len(outs):
                     # operator* returns stored members: a cache of the coordinates.  That is right exactly if every mutator keeps
@@ -992,6 +1044,9 @@ def check_iterators(ctx, ir):
                                                              for o in dimoffs])
                     ctx.ok(R, inst, 'returns the cached coordinates %s; coherence with reshape(current_index) is an obligation of every '
                            'mutator (checked for ++)' % ', '.join(map(str, outs)), SEQ)
+                elif bad and (float_atoms(bad[1]) or float_atoms(bad[2])):
+                    ctx.undecided(R, inst, 'component %s is computed through floating-point conversions (%s); not comparable with '
+                                  'reshape(current) here - see R-C17-3 for reshape itself' % (bad[0], float_atoms(bad[1] + bad[2])[0]), SEQ)
                 elif bad:
                     ctx.violation(R, inst, 'component %s is %s, but reshape(current) gives %s' % bad, SEQ,
                                   key=key('multidim_index_iterator::operator*', 'reshape'))
@@ -1012,7 +1067,7 @@ def check_iterators(ctx, ir):
                 if not I.equal(s.value('out[%d]' % cur), c + 1):
                     probs.append('pre-increment returns an iterator at current%+d' % int(sp.expand(s.value('out[%d]' % cur) - c))
                                  if sp.expand(s.value('out[%d]' % cur) - c).is_Integer else 'returned position %s' % s.value('out[%d]' % cur))
-                for o in dimoffs:
+                for o in itoffs:
                     if not I.equal(s.value('out[%d]' % o), sym('it[%d]' % o)):
                         probs.append('returned iterator has extent %s at offset %d' % (s.value('out[%d]' % o), o))
                 if probs:
@@ -1037,16 +1092,23 @@ def check_iterators(ctx, ir):
                               key=key('multidim_index_iterator::operator++', 'post')) if isinstance(e, KeyError) else \
                     ctx.undecided(R, inst, str(e), SEQ)
             coherence(nd, cur, s, inst, 'operator++(int)')
-    # != / == decide on the position when the extents agree
+    # != / == decide on the position when all other members agree
     for name, positive in (('K_eq3', True), ('K_ne3', False)):
         inst = 'multidim_index_iterator<3>::operator%s' % ('==' if positive else '!=')
         s = ir.summary(R, inst, name, SEQ)
-        if s is None:
+        if s is None or 3 not in layout:
             continue
         n += 1
         try:
-            same = [I.ilit('eq', sym('it[%d]' % o), sym('other[%d]' % o)) for o in (0, 8, 16)]
-            poseq = I.ilit('eq', sym('it[24]'), sym('other[24]'))
+            cur = layout[3][1]
+            seen_syms = set()
+            for g, t in s.values('ret'):
+                seen_syms |= t.free_symbols
+                for l in g:
+                    seen_syms |= l.free_symbols
+            offs = sorted({int(mo.group(1)) for z in seen_syms for mo in [re.match(r'^(?:it|other)\[(\d+)\]$', str(z))] if mo} - {cur})
+            same = [I.ilit('eq', sym('it[%d]' % o), sym('other[%d]' % o)) for o in offs]
+            poseq = I.ilit('eq', sym('it[%d]' % cur), sym('other[%d]' % cur))
             probs = []
             for g, t in s.values('ret'):
                 for g2, v in I.cases(t, g, assume=same):
@@ -1055,11 +1117,13 @@ def check_iterators(ctx, ir):
                         continue
                     if v not in (0, 1):
                         raise Undecided('result %s' % v)
+                    if not simple_guard(G):
+                        raise Undecided('comparison through %s' % ' & '.join(map(str, g2)))
                     says_equal = (v == 1) == positive
                     if says_equal and I.consistent(G + [I.neg(poseq)]):
                         probs.append('reports equality although the positions may differ (case %s)' % ' & '.join(map(str, g2)))
                     if not says_equal and I.consistent(G + [poseq]):
-                        probs.append('reports inequality although extents and positions are equal (case %s)' % ' & '.join(map(str, g2)))
+                        probs.append('reports inequality although all other members and the positions are equal (case %s)' % ' & '.join(map(str, g2)))
             if probs:
                 ctx.violation(R, inst, probs[0], SEQ, key=key('multidim_index_iterator::operator==', 'position'))
             else:
@@ -1261,6 +1325,252 @@ def check_adaptors(ctx, tu):
     ctx.floor(R, n, 14, 'get/size/numElements of 4 adaptors + ActualArray3D::set (x element types)')
 
 
+# ============================================================================================
+#  R-C17-5 (continued): the shift stored by IndexShiftedArray3D is inside the period get() can wrap
+# ============================================================================================
+def shift_range(tu, n, env, field, depth=0):
+    """(lo, hi): the value of a vec3i expression as a multiple of size(), component-wise bounds; a user-supplied shift
+    parameter and the stored shift of another shifted array are taken to lie in [-1, 1] * size.  None = not recognised."""
+    n = tu.strip(n, casts=True)
+    if n is None or depth > 12:
+        return None
+    k = n.get('kind')
+    ks = tu.kids(n)
+    R = lambda x, e=env: shift_range(tu, x, e, field, depth + 1)
+    if k == 'DeclRefExpr':
+        rd = n.get('referencedDecl', {})
+        if rd.get('id') in env:
+            return env[rd['id']]
+        if rd.get('kind') == 'ParmVarDecl' and 'vec_t<int, 3' in tu.sd(n).get('ct', ''):
+            return (-1, 1)
+        d = tu.node(rd.get('id'))
+        if d is not None and d.get('kind') == 'VarDecl' and tu.kids(d):
+            return R(tu.kids(d)[-1])
+        return None
+    if k == 'MemberExpr':
+        return (-1, 1) if n.get('name') == field else None
+    if k == 'IntegerLiteral':
+        return (0, 0) if n.get('value') == '0' else None
+    if k in ('CXXConstructExpr', 'CXXTemporaryObjectExpr', 'InitListExpr'):
+        args = [x for x in ks if x.get('kind') != 'CXXDefaultArgExpr']
+        if len(args) == 1:
+            return R(args[0])
+        if args and all(tu.strip(x, casts=True).get('kind') == 'IntegerLiteral' and tu.strip(x, casts=True).get('value') == '0' for x in args):
+            return (0, 0)
+        return None
+    if k == 'ConditionalOperator':
+        a, b = R(ks[1]), R(ks[2])
+        return None if a is None or b is None else (min(a[0], b[0]), max(a[1], b[1]))
+    if k in ('CXXOperatorCallExpr', 'CallExpr', 'CXXMemberCallExpr'):
+        sd, obj, args = tu.call_parts(n)
+        name = strip_targs(sd.get('q', '')).split('::')[-1]
+        allargs = ([obj] if obj is not None and k == 'CXXOperatorCallExpr' else []) + list(args)
+        if k == 'CXXOperatorCallExpr' and name in ('operator+', 'operator-') and len(allargs) == 2:
+            a, b = R(allargs[0]), R(allargs[1])
+            if a is None or b is None:
+                return None
+            return (a[0] + b[0], a[1] + b[1]) if name == 'operator+' else (a[0] - b[1], a[1] - b[0])
+        if k == 'CXXOperatorCallExpr' and name == 'operator-' and len(allargs) == 1:
+            a = R(allargs[0])
+            return None if a is None else (-a[1], -a[0])
+        if k == 'CXXOperatorCallExpr' and name == 'operator%' and len(allargs) == 2:
+            d = tu.strip(allargs[1], casts=True)
+            if d is not None and strip_targs(tu.sd(d).get('q', '')).endswith('::size'):
+                return (-1, 1)         # remainder of a division by size(): strictly inside one period
+            return None
+        c = tu.callee_fn(n)
+        if c is not None and not c['dep'] and tu.body(c) is not None and len(c.get('params', [])) == len(args):
+            env2 = {}
+            for prm, av in zip(c['params'], args):
+                r = R(av)
+                if r is not None:
+                    env2[prm['id']] = r
+            rets = [x for x in tu.walk(tu.body(c)) if x.get('kind') == 'ReturnStmt' and tu.kids(x)]
+            out = None
+            for rt in rets:
+                r = shift_range(tu, tu.kids(rt)[0], env2, field, depth + 1)
+                if r is None:
+                    return None
+                out = r if out is None else (min(out[0], r[0]), max(out[1], r[1]))
+            return out
+        return None
+    return None
+
+
+def check_shift_range(ctx, tu):
+    R = 'R-C17-5'
+    n = 0
+    for f in tu.functions.values():
+        if f['dep'] or not f.get('ctor') or f.get('ctor') in ('copy', 'move') or not f['params']:
+            continue
+        if strip_targs(f['q']).split('::')[-2:] != ['IndexShiftedArray3D', 'IndexShiftedArray3D']:
+            continue
+        _, vecs, _ = delegate_field(tu, f)
+        vecs = [v for v in vecs]
+        if len(vecs) != 1:
+            ctx.undecided(R, f['q'], 'cannot identify the shift member', tu.fn_loc(f))
+            continue
+        field = vecs[0]
+        top = tu.node(f['id'])
+        init = None
+        for x in (top.get('inner', []) if top else []):
+            if isinstance(x, dict) and x.get('kind') == 'CXXCtorInitializer' and (x.get('anyInit') or {}).get('name') == field:
+                ks = tu.kids(x)
+                init = ks[0] if ks else None
+        n += 1
+        inst = '%s constructor: range of the stored shift' % f['q'].replace('rkcommon::array3D::', '').rsplit('::', 1)[0]
+        key = '%s|%s|IndexShiftedArray3D::IndexShiftedArray3D|shift-range' % (R, A3D)
+        if init is None:
+            ctx.undecided(R, inst, 'no initialiser for member %s' % field, tu.fn_loc(f))
+            continue
+        r = shift_range(tu, init, {}, field)
+        if r is None:
+            ctx.undecided(R, inst, 'initialiser %s of %s is not a recognised combination of shifts' % (tu.show(init)[:100], field), tu.fn_loc(f))
+        elif r[0] < -1 or r[1] > 1:
+            ctx.violation(R, inst, 'the stored shift `%s` ranges over [%d, %d] * size() (each user-supplied or stored shift lies within one '
+                          'period, [-size, size]); get() wraps with (where + size() + shift) %% size(), which is the mathematical modulo only '
+                          'for shift >= -size(): below that the C++ remainder is negative and the inner get() clamps it to 0 instead of '
+                          'wrapping - the sum has to be reduced modulo size() before it is stored' % (tu.show(init)[:100], r[0], r[1]),
+                          tu.loc(init), key=key)
+        else:
+            ctx.ok(R, inst, 'stored shift %s lies within one period [-size, size]' % tu.show(init)[:80], tu.fn_loc(f))
+    ctx.floor(R, n, 1, 'IndexShiftedArray3D constructors instantiated by %s' % AST_DRIVER)
+
+
+# ============================================================================================
+#  R-C17-6  getValueRange accumulates with the join of the range lattice
+# ============================================================================================
+def check_value_range(ctx, tu):
+    R = 'R-C17-6'
+    ctx.describe(R, 'getValueRange: after each visited value t the running range satisfies lower <= t <= upper (extend(), two independent '
+                    'tests, or if / else-if on a range that already holds a value)')
+    n = 0
+    for f in find_fns(tu, r'^rkcommon::array3D::Array3D<.*>::getValueRange$'):
+        if len(f['params']) != 2:
+            continue
+        n += 1
+        inst = '%s' % f['q'].replace('rkcommon::array3D::', '')
+        key = '%s|%s|Array3D::getValueRange|' % (R, A3D)
+        body = tu.body(f)
+        # the running range: a local of type range_t
+        rv = None
+        for st in tu.walk(body):
+            if st.get('kind') == 'VarDecl' and 'range_t<' in st.get('type', {}).get('qualType', '') and rv is None:
+                rv = st
+        if rv is None:
+            ctx.undecided(R, inst, 'no local range_t found', tu.fn_loc(f))
+            continue
+        seed = 'empty'
+        ctors = [x for x in (tu.walk(tu.kids(rv)[-1]) if tu.kids(rv) else []) if x.get('kind') in ('CXXConstructExpr', 'CXXTemporaryObjectExpr')
+                 and 'range_t' in tu.sd(x).get('q', '')]
+        for c in ctors:
+            args = [a for a in tu.kids(c) if a.get('kind') != 'CXXDefaultArgExpr']
+            if len(args) == 1 and 'range_t' in tu.sd(tu.strip(args[0])).get('ct', tu.strip(args[0]).get('type', {}).get('qualType', '')):
+                continue          # copy / move of the inner temporary
+            if not args:
+                seed = 'empty'
+            elif len(args) == 1 and 'EmptyTy' in args[0].get('type', {}).get('qualType', ''):
+                seed = 'empty'
+            elif len(args) == 1:
+                seed = 'point'     # range_t(const T &t): lower = upper = t
+            else:
+                seed = 'unknown'
+        vref = rv['id']
+        is_v = lambda e: (tu.strip(e) or {}).get('kind') == 'DeclRefExpr' and tu.strip(e).get('referencedDecl', {}).get('id') == vref
+        bound_of = lambda e: (tu.strip(e).get('name') if (tu.strip(e) or {}).get('kind') == 'MemberExpr' and tu.kids(tu.strip(e))
+                              and is_v(tu.kids(tu.strip(e))[0]) else None)
+        seen = set()
+        extends, assigns, ifs = [], [], []
+        for x in tu.walk(body):
+            if 'id' not in x or x['id'] in seen:
+                continue
+            seen.add(x['id'])
+            if x.get('kind') == 'CXXMemberCallExpr' and strip_targs(tu.sd(x).get('q', '')).endswith('range_t::extend'):
+                _, obj, _a = tu.call_parts(x)
+                if obj is not None and is_v(obj):
+                    extends.append(x)
+            if x.get('kind') == 'BinaryOperator' and x.get('opcode') == '=' and bound_of(tu.kids(x)[0]):
+                assigns.append(x)
+            if x.get('kind') == 'IfStmt':
+                ifs.append(x)
+        if extends and not assigns:
+            ctx.ok(R, inst, 'every visited value goes through range_t::extend (min / max on both bounds); seed: %s' % seed, tu.fn_loc(f))
+            continue
+        if not assigns:
+            ctx.undecided(R, inst, 'no update of the running range found', tu.fn_loc(f))
+            continue
+
+        def branch_assign(st):
+            """(bound name, value nf) if the statement (possibly a one-statement block) is `v.bound = t`"""
+            while st is not None and st.get('kind') == 'CompoundStmt' and len(tu.kids(st)) == 1:
+                st = tu.kids(st)[0]
+            e = tu.strip(st) if st is not None else None
+            if e is not None and e.get('kind') == 'BinaryOperator' and e.get('opcode') == '=':
+                b = bound_of(tu.kids(e)[0])
+                if b:
+                    return b, nf(tu, tu.kids(e)[1])
+            return None
+
+        def cond_ok(c, bound, val):
+            c = drop_casts(nf(tu, c))
+            vb = None
+            if c[0] == 'op' and c[1] in ('<', '>') and len(c[2]) == 2:
+                a, b = c[2]
+                if c[1] == '>':
+                    a, b = b, a
+                # a < b
+                tgt = ('mem', ('ref', 'VarDecl', rv.get('name')), bound)
+                if bound == 'lower' and a == val and b == tgt:
+                    return True
+                if bound == 'upper' and a == tgt and b == val:
+                    return True
+            return False
+
+        form = None
+        for i1 in ifs:
+            parts = [x for x in i1.get('inner', []) if isinstance(x, dict) and x.get('kind')]
+            if len(parts) < 2:
+                continue
+            a1 = branch_assign(parts[1])
+            if a1 is None or not cond_ok(parts[0], a1[0], a1[1]):
+                continue
+            other = 'upper' if a1[0] == 'lower' else 'lower'
+            if len(parts) == 3:
+                e = parts[2]
+                while e.get('kind') == 'CompoundStmt' and len(tu.kids(e)) == 1:
+                    e = tu.kids(e)[0]
+                if e.get('kind') == 'IfStmt':
+                    p2 = [x for x in e.get('inner', []) if isinstance(x, dict) and x.get('kind')]
+                    a2 = branch_assign(p2[1]) if len(p2) == 2 else None
+                    if a2 and a2[0] == other and a2[1] == a1[1] and cond_ok(p2[0], a2[0], a2[1]):
+                        form = ('else-if', a1[0], i1)
+            elif len(parts) == 2:
+                # an independent sibling test for the other bound
+                for i2 in ifs:
+                    if i2 is i1:
+                        continue
+                    p2 = [x for x in i2.get('inner', []) if isinstance(x, dict) and x.get('kind')]
+                    a2 = branch_assign(p2[1]) if len(p2) == 2 else None
+                    if a2 and a2[0] == other and a2[1] == a1[1] and cond_ok(p2[0], a2[0], a2[1]) and tu.par(i1) is tu.par(i2):
+                        form = form or ('independent', a1[0], i1)
+        if form is None or len(assigns) != 2 or extends:
+            ctx.undecided(R, inst, 'the update of the running range is not a recognised min/max form', tu.fn_loc(f))
+        elif form[0] == 'independent':
+            ctx.ok(R, inst, 'both bounds are tested independently for every value; seed: %s' % seed, tu.fn_loc(f))
+        elif seed == 'point':
+            ctx.ok(R, inst, 'if / else-if update on a range seeded with a value (lower <= upper holds, so a new minimum cannot exceed upper)',
+                   tu.fn_loc(f))
+        elif seed == 'empty':
+            ctx.violation(R, inst, 'the running range starts empty (lower = +inf > upper = -inf) and is updated by `if (t < lower) lower = t; '
+                          'else if (upper < t) upper = t;`: the else-branch is skipped whenever t lowers the minimum, which is only harmless '
+                          'while lower <= upper - the first value visited sets lower only, so a maximum located in the first cell is lost '
+                          '(upper can even stay -inf): the result does not bound the values of the region', tu.loc(form[2]),
+                          key=key + 'else-if-empty-seed')
+        else:
+            ctx.undecided(R, inst, 'if / else-if update with a seed whose bounds are not known to be ordered', tu.fn_loc(f))
+    ctx.floor(R, n, 1, 'Array3D<T>::getValueRange(begin, end) instantiations in %s' % AST_DRIVER)
+
+
 def simple_guard(lits):
     """every literal compares operands that are constants or linear in a single input (x, dx - 1, 0): for such guards the
     order theory of irnorm.consistent is complete, so a guard it accepts is satisfiable"""
@@ -1375,12 +1685,16 @@ def run(ctx):
     check_for_each(ctx, tu)
     check_iterators(ctx, ir)
     check_adaptors(ctx, tu)
+    check_shift_range(ctx, tu)
+    check_value_range(ctx, tu)
     check_get_clamps(ctx, ir, adims)
     if ctx.tier == 'thorough':
         tu2 = ctx.front.parse(AST_DRIVER, 'TBB', std='gnu++17')
         check_typing(ctx, tu2)
         check_for_each(ctx, tu2)
         check_adaptors(ctx, tu2)
+        check_shift_range(ctx, tu2)
+        check_value_range(ctx, tu2)
     ctx.extra['ir_units'] = [{'unit': IR_DRIVER, 'config': 'TBB+SIMD -DNDEBUG'}]
     from rkstatic import selftest
     selftest.run(ctx)
